@@ -14,6 +14,9 @@ type BlockIn struct {
 	PortIn     func(port uint8) uint8     // next byte of the input stream
 	PortOut    func(port uint8, v uint8)  // records an output
 	MaxElems   int                        // stop early (0 = run to completion)
+	// Len > 0: the memory is shorter than its address range (the library's DumbMemory): addresses
+	// >= Len read as 0 and ignore writes
+	Len int
 	OnElem     func(i int, r, w int32)    // optional: element i read address r / wrote address w (-1: none)
 }
 
@@ -42,9 +45,21 @@ func BlockSpec(in BlockIn) BlockOut {
 		step = 0xffff
 	}
 	f := in.F
+	rd := func(a uint16) uint8 {
+		if in.Len > 0 && int(a) >= in.Len {
+			return 0
+		}
+		return in.Mem[a]
+	}
+	wr := func(a uint16, v uint8) {
+		if in.Len > 0 && int(a) >= in.Len {
+			return
+		}
+		in.Mem[a] = v
+	}
 	for {
 		// hardware re-decodes the instruction on every repetition
-		if in.Mem[in.PC] != 0xed || in.Mem[in.PC+1] != op {
+		if rd(in.PC) != 0xed || rd(in.PC+1) != op {
 			o.SelfMod = true
 			break
 		}
@@ -54,8 +69,8 @@ func BlockSpec(in BlockIn) BlockOut {
 		finished := false
 		switch kind {
 		case 0:
-			v := in.Mem[o.HL]
-			in.Mem[o.DE] = v
+			v := rd(o.HL)
+			wr(o.DE, v)
 			if in.OnElem != nil {
 				in.OnElem(o.Elems, int32(o.HL), int32(o.DE))
 			}
@@ -68,7 +83,7 @@ func BlockSpec(in BlockIn) BlockOut {
 			}
 			finished = o.BC == 0
 		case 1:
-			v := in.Mem[o.HL]
+			v := rd(o.HL)
 			if in.OnElem != nil {
 				in.OnElem(o.Elems, int32(o.HL), -1)
 			}
@@ -91,7 +106,7 @@ func BlockSpec(in BlockIn) BlockOut {
 		case 2:
 			port := uint8(o.BC)
 			v := in.PortIn(port)
-			in.Mem[o.HL] = v
+			wr(o.HL, v)
 			if in.OnElem != nil {
 				in.OnElem(o.Elems, -1, int32(o.HL))
 			}
@@ -104,7 +119,7 @@ func BlockSpec(in BlockIn) BlockOut {
 			}
 			finished = o.BC>>8 == 0
 		case 3:
-			v := in.Mem[o.HL]
+			v := rd(o.HL)
 			if in.OnElem != nil {
 				in.OnElem(o.Elems, int32(o.HL), -1)
 			}
